@@ -301,7 +301,7 @@ theorem mainToShadow_dup {c : Cfg} {txnID now cutoff : Nat} {w w' : W} (hdist : 
   rw [shadowOf_congr d hsd1] at hiu
   refine ⟨_, s, e3, e4, e2, hiu, ?_⟩
   rw [hfin, hw2]
-  simp only [findDbi_setKvs, if_true, openCreate_find_self, Option.map_some]
+  simp only [findDbi_setKvsMirror, if_true, openCreate_find_self, Option.map_some]
   have := shadowOf_congr d hsd1
   unfold shadowOf at this
   rw [this]; rfl
@@ -321,7 +321,7 @@ theorem s2mStep_dup_ok {c : Cfg} {w w' : W} {name : Bytes} {d : Dbi}
     cases hr : readDBI c w (shadowName name) name false with
     | error e => simp [hr] at h
     | ok msg =>
-      obtain ⟨sd, fl, hsd, _, ht⟩ := readDBI_ok hr
+      obtain ⟨sd, fl, hsd, _, ht⟩ := readDBI_okMirror hr
       obtain ⟨_, hm, _⟩ := readTail_ok ht
       simp only [hr] at h
       cases hda : decodeAll msg.entries with
@@ -547,7 +547,7 @@ theorem dup_cycle_env {c : Cfg} {w w1 w2 : W} {txnID now cutoff : Nat} {n : Byte
   have hcore := dup_cycle_core hn ht hps hne hkl hE hEK hS hSK hwf hclock hiu hm hdec hput
   refine ⟨?_, ?_, ?_⟩
   · rw [hfin, hw2']
-    simp only [findDbi_setKvs, if_true, hd1', Option.map_some, hcore]
+    simp only [findDbi_setKvsMirror, if_true, hd1', Option.map_some, hcore]
   rotate_left
   · refine ⟨_, es, dec, ?_, hm, hdec, ?_⟩
     · rw [(shadowToMain_frame h2).2.2 _ (isPrivate_shadowName n)]; exact hf
